@@ -450,9 +450,17 @@ class Evaluator:
             elif k == "switch":
                 d = self.operand(st, t["op"])
                 vals = [v for v, _ in t["targets"]]
-                for v, tb in t["targets"]:
+                dc = strip_after(d)
+                if dc[0] == "c" and dc[2] == "int" and isinstance(dc[3], int) and not isinstance(dc[3], bool):
+                    # the discriminant is a constant on this path (e.g. a flag assigned `false` on the other arm of a short-circuit
+                    # `&&`): only the matching edge exists; no branch atom is recorded
+                    tgt = next((tb for v, tb in t["targets"] if v == dc[3]), t["otherwise"])
+                    nxt.append((tgt, None))
+                    vals = None
+                for v, tb in (t["targets"] if vals is not None else []):
                     nxt.append((tb, {"block": b, "label": ("sw", v), "discr": d, "ty": t.get("ty"), "line": t.get("line")}))
-                nxt.append((t["otherwise"], {"block": b, "label": ("not", tuple(vals)), "discr": d, "ty": t.get("ty"), "line": t.get("line")}))
+                if vals is not None:
+                    nxt.append((t["otherwise"], {"block": b, "label": ("not", tuple(vals)), "discr": d, "ty": t.get("ty"), "line": t.get("line")}))
             else:
                 self._emit(st, "unreachable", None)
                 continue
